@@ -12,7 +12,7 @@ from orquestra.quantum.wavefunction import (Wavefunction, flip_wavefunction, fli
 
 H = Harness("C12", ["OQ.Base.CaseEq", "OQ.State.Wavefunction", "OQ.State.WavefunctionCases"],
             "kinds: history (1-20 operations on 0-4 qubits; numeric / symbolic / mixed initial vectors given as list, "
-            "tuple, ndarray or sympy Matrix; element and slice assignments incl. negative / overflowing bounds, broadcast, "
+            "tuple, ndarray or sympy Matrix; element, list-at-index (sympy spill) and slice assignments incl. negative / overflowing bounds, broadcast, "
             "wrong lengths, symbols into numpy storage, out-of-range indices; bind with valid, invalid, partial, renaming "
             "and absent-symbol maps; after EVERY step outcome + backing + full amplitude snapshot are compared with the "
             "model and the receiver of every bind is re-read), create (valid, wrong length, wrong norm, tolerance probes "
@@ -117,6 +117,8 @@ def apply_op(wf, op):
     """-> (status, exception-name or returned object)"""
     if op["op"] == "item":
         return outcome(wf.__setitem__, op["i"], amp_py(op["v"]))
+    if op["op"] == "itemlist":
+        return outcome(wf.__setitem__, op["i"], [amp_py(v) for v in op["vs"]])
     if op["op"] == "slice":
         return outcome(wf.__setitem__, slice(op["lo"], op["hi"]), [amp_py(v) for v in op["vs"]])
     if op["op"] == "bind":
@@ -126,6 +128,8 @@ def apply_op(wf, op):
 def op_coq(op):
     if op["op"] == "item":
         return f"(SetItem {cz(op['i'])} {amp_coq(op['v'])})"
+    if op["op"] == "itemlist":
+        return f"(SetItemList {cz(op['i'])} {amps_coq(op['vs'])})"
     if op["op"] == "slice":
         return f"(SetSlice {cz(op['lo'])} {cz(op['hi'])} {amps_coq(op['vs'])})"
     return "(Bind " + clist(op["m"], lambda kv: cpair(f"{int(kv[0])}%positive", amp_coq(kv[1]))) + ")"
@@ -224,6 +228,25 @@ def gen_op(rng, sn):
                 free = [t for t in range(5, 9) if t not in keys]
                 m.append([k, sym(rng.choice(free))] if free else [k, rnd_value(rng)])
         return dict(op="bind", m=m)
+    if r < pbind + (1 - pbind) * (0.14 if b == "mat" else 0.06):
+        # a list at an integer index: sympy spills it over the following entries (F29 shape when rejected)
+        i = rng.randrange(n)
+        k = rng.choice([0, 1, 1, 2, 2, 2, 3, 4])
+        q = rng.random()
+        if q < 0.1:
+            i = rng.choice([n, n + 1, -n - 1])
+        elif q < 0.3:
+            i = i - n
+        pos = i % n if -n <= i < n else 0
+        seg = a[pos:pos + k]
+        q = rng.random()
+        if q < 0.4 and len(seg) == k and seg and not any(is_sym(x) for x in seg):
+            vs = [rephase(rng, x) for x in seg]
+        elif q < 0.85:
+            vs = [rnd_value(rng, zero_ok=rng.random() < 0.5) for _ in range(k)]
+        else:
+            vs = [rnd_value(rng) if rng.random() < 0.5 else sym(rng.randint(1, 4)) for _ in range(k)]
+        return dict(op="itemlist", i=i, vs=vs)
     if r < pbind + (1 - pbind) * 0.5:
         i = rng.randrange(n)
         q = rng.random()
@@ -304,6 +327,33 @@ def gen(rng, tier):
             ops.append(dict(op="slice", lo=lo, hi=hi, vs=vs))
             ops.append(dict(op="item", i=rng.randrange(n), v=rnd_value(rng)))
         yield dict(kind="history", container=rng.choice(["list", "nparray", "matrix"]), init=init, ops=ops)
+    # F37 shape: slice assignments into flat numpy storage with matching length and a symbol after at least one number
+    for _ in range(30 * scale):
+        nq = rng.choice([1, 2, 2, 3, 4])
+        n = 2 ** nq
+        init = make_vector(rng, n, "numeric", True)
+        ops = []
+        for _ in range(rng.randint(1, 3)):
+            lo = rng.randint(0, n - 2)
+            hi = rng.randint(lo + 2, n)
+            vs = [rnd_value(rng, zero_ok=False) for _ in range(hi - lo)]
+            vs[rng.randint(1, hi - lo - 1)] = sym(rng.randint(1, 4))
+            ops.append(dict(op="slice", lo=lo if rng.random() < 0.7 else lo - n, hi=hi, vs=vs))
+            ops.append(dict(op="item", i=rng.randrange(n), v=rnd_value(rng)))
+        yield dict(kind="history", container=rng.choice(["list", "nparray", "tuple"]), init=init, ops=ops)
+    # F29 shape: rejected list-at-index assignments (spill) into sympy-backed objects, between ordinary steps
+    for _ in range(40 * scale):
+        nq = rng.choice([1, 2, 2, 3, 3, 4])
+        n = 2 ** nq
+        init = make_vector(rng, n, rng.choice(["mixed", "mixed", "symbolic"]), True)
+        ops = []
+        for _ in range(rng.randint(1, 4)):
+            i = rng.randrange(n)
+            k = rng.randint(1, min(3, n - i)) if rng.random() < 0.9 else n - i + 1
+            ops.append(dict(op="itemlist", i=i if rng.random() < 0.7 else i - n,
+                            vs=[rnd_value(rng, zero_ok=False) for _ in range(k)]))
+            ops.append(dict(op="item", i=rng.randrange(n), v=rnd_value(rng)))
+        yield dict(kind="history", container=rng.choice(["list", "matrix"]), init=init, ops=ops)
     for _ in range(60 * scale):
         r = rng.random()
         if r < 0.5:
@@ -335,6 +385,9 @@ def gen(rng, tier):
         cont = rng.choice(["list", "matrix"]) if flavour != "numeric" else rng.choice(["list", "nparray", "matrix"])
         yield dict(kind=rng.choice(["probs", "flipwf", "saveload", "saveload"]) if flavour == "numeric"
                    else rng.choice(["flipwf", "saveload"]), container=cont, v=v)
+    for _ in range(25 * scale):
+        v = make_vector(rng, 2 ** rng.randint(1, 4), "numeric", True)
+        yield dict(kind="probs", container=rng.choice(["list", "nparray", "matrix"]), v=v)
     for _ in range(40 * scale):
         nq = rng.randint(0, 5)
         vals = rng.sample(range(-40, 41), 2 ** nq) if nq <= 5 else []
@@ -372,12 +425,12 @@ def run_history(inp):
     exp, alias = [], []
     prev = sn0
     n_ok = n_err = 0
-    known = []           # failures inside the signature of finding F27 (partial write by numpy before its TypeError)
-    tainted = False      # the object was left un-normalised by an F27 step and has not been repaired since
+    n_f37 = 0            # steps of the shape of (fixed) finding F37: numpy stores leading numbers, then raises TypeError
     for k, op in enumerate(ops):
         hazard = (op["op"] == "slice" and prev["b"] == "flat" and any(is_sym(v) for v in op["vs"])
                   and not is_sym(op["vs"][0])
                   and len(op["vs"]) == len(range(*slice(op["lo"], op["hi"]).indices(len(prev["a"])))))
+        n_f37 += hazard
         st, res = apply_op(wf, op)
         after = snapshot(wf)              # the receiver, re-read after the operation
         al = False
@@ -395,29 +448,28 @@ def run_history(inp):
             o = "Ok"
             if op["op"] == "item" and after["a"][op["i"]] != op["v"]:
                 msgs.append(f"step {k}: accepted element assignment did not store the value: {after['a']}")
+            if op["op"] == "itemlist":
+                p0 = op["i"] % len(prev["a"])
+                if after["a"][p0:p0 + len(op["vs"])] != op["vs"]:
+                    msgs.append(f"step {k}: accepted list assignment did not store the values: {after['a']}")
         else:
             n_err += 1
             o = OUT.get(res)
             if o is None:
                 return dict(chk="false", oracle_ok=False, oracle_msg=f"step {k} {op} raised {res}", kind="history")
             if after != prev:
-                (known if hazard else msgs).append(
-                    f"step {k}: {op} raised {res} but changed the object from {prev['a']} to {after['a']}")
+                msgs.append(f"step {k}: {op} raised {res} but changed the object from {prev['a']} to {after['a']}")
         im = inv_msg(after)
-        if hazard and st != "ok" and after != prev:
-            tainted = True
         if im:
-            (known if tainted else msgs).append(f"step {k}: after {op} ({o}) the object is {after['a']}: {im}")
-        else:
-            tainted = False
+            msgs.append(f"step {k}: after {op} ({o}) the object is {after['a']}: {im}")
         exp.append(cpair(o, state_coq(after)))
         alias.append(cbool(al))
         prev = after
     chk = (f"hist_eqb {col} {amps_coq(init)} {clist(ops, op_coq)} (Some {state_coq(sn0)}) "
            f"{clist(exp)} {clist(alias)}")
     flav = "numeric" if not any(is_sym(x) for x in init) else ("symbolic" if all(is_sym(x) for x in init) else "mixed")
-    return dict(chk=chk, oracle_ok=not (msgs or known), oracle_msg="; ".join((msgs or known)[:3]),
-                sig=None if (msgs or not known) else "F27", kind=f"history-{flav}" + ("-F27" if known else ""),
+    return dict(chk=chk, oracle_ok=not msgs, oracle_msg="; ".join(msgs[:3]),
+                kind=f"history-{flav}" + ("-F37shape" if n_f37 else ""),
                 nontrivial=len(init) >= 2 and n_ok >= 1 and n_err >= 1)
 
 def run_create(inp):
@@ -551,11 +603,20 @@ def w_f12():
     bad = st != "err" or left != [0.5, 0.5, 0.5, 0.5]
     return bad, f"wf=[.5,.5,.5,.5]; wf[0:2]=[.9,.9] -> {st} {res}; object afterwards {left}"
 
-def w_f27():
+def w_f37():
     wf = Wavefunction([1, 0])
     st, res = outcome(wf.__setitem__, slice(0, 2), [0.5, sympy.Symbol("x1")])
     left = [complex(x) for x in np.asarray(wf.amplitudes).reshape(-1)]
-    bad = st == "err" and left != [1, 0]
+    bad = st != "err" or left != [1, 0]
     return bad, f"wf=Wavefunction([1,0]); wf[0:2]=[0.5,x] -> {st} {res}; object afterwards {left}"
 
-H.main(gen, run_case, {"F12": w_f12, "F27": w_f27})
+def w_f29():
+    al, be = sympy.Symbol("x1"), sympy.Symbol("x2")
+    wf = Wavefunction(sympy.Matrix([al, 0.5, 0.5, be]))
+    before = snapshot(wf)
+    st, res = outcome(wf.__setitem__, 1, [1.0, 1.0])
+    after = snapshot(wf)
+    bad = st != "err" or after != before
+    return bad, f"wf=Wavefunction(Matrix([a,.5,.5,b])); wf[1]=[1.,1.] -> {st} {res}; object afterwards {after['a']}"
+
+H.main(gen, run_case, {"F12": w_f12, "F29": w_f29, "F37": w_f37})
